@@ -227,7 +227,7 @@ impl Request {
         use crate::Response;
 
         #[cfg(ohkami_verif)] crate::__verif::emit("read-start", 0, 0);
-        match stream.read(&mut *self.__buf__).await {
+        let len = match stream.read(&mut *self.__buf__).await {
             Ok (0) => return Ok(None),
             Err(e) => return match e.kind() {
                 std::io::ErrorKind::ConnectionReset => Ok(None),
@@ -237,16 +237,20 @@ impl Request {
                 })(e))
             },
             #[cfg(ohkami_verif)]
-            Ok(n) => crate::__verif::emit("read", n, 0),
-            _ => ()
-        }
+            Ok(n) => {crate::__verif::emit("read", n, 0); n}
+            Ok(n) => n
+        };
 
         let mut r = Reader::new(unsafe {
             // pass detouched bytes
             // to resolve immutable/mutable borrowing
             // 
             // SAFETY: `self.__buf__` itself is immutable
-            Slice::from_bytes(&*self.__buf__).as_bytes()
+            // 
+            // Only the bytes actually read: what follows them in the
+            // buffer is not a part of the request ( zeros, or stale
+            // bytes of previous requests on this connection )
+            Slice::from_bytes(&self.__buf__[..len]).as_bytes()
         });
 
         match Method::from_bytes(r.read_while(|b| b != &b' ')) {
@@ -309,15 +313,7 @@ impl Request {
     ) -> CowSlice {
         let remaining_buf_len = remaining_buf.len();
 
-        if remaining_buf_len == 0 || *unsafe {remaining_buf.get_unchecked(0)} == 0 {
-            #[cfg(feature="DEBUG")] println!("\n[read_payload] case: remaining_buf.is_empty() || remaining_buf[0] == 0\n");
-
-            let mut bytes = vec![0; size].into_boxed_slice();
-            #[cfg(ohkami_verif)] crate::__verif::emit("read-exact-start", size, 0);
-            stream.read_exact(&mut bytes).await.unwrap();
-            CowSlice::Own(bytes)
-
-        } else if size <= remaining_buf_len {
+        if size <= remaining_buf_len {
             #[cfg(feature="DEBUG")] println!("\n[read_payload] case: starts_at + size <= BUF_SIZE\n");
 
             #[allow(unused_unsafe/* I don't know why but rustc sometimes put warnings to this unsafe as unnecessary */)]
